@@ -5,28 +5,21 @@
      SpinOverBin : view is SPIN,  base is BINARY  ("spin -> binary" branches) *)
 From Coq Require Import List ZArith QArith Qcanon Bool Arith.
 From Dimod Require Import Base.Util Model.Poly.
+From Dimod Require Export Gen.Gen_View.
 Import ListNotations.
 Open Scope Qc_scope.
 
-Inductive vdir := BinOverSpin | SpinOverBin.
-
-Definition four : Qc := two * two.
-Definition quarter : Qc := half * half.
+(* vdir, four, quarter and the factor tables gen_add_linear / gen_add_quadratic come from
+   Gen/Gen_View.v, which translators/view_formulas.py regenerates from vartypeview.py on every run *)
 
 Definition view_add_linear (d : vdir) (v : label) (b : Qc) (base : poly) : poly :=
-  match d with
-  | BinOverSpin => add_offset (b * half) (add_linear v (b * half) base)
-  | SpinOverBin => add_offset (- b) (add_linear v (two * b) base)
-  end.
+  let '(kl, ko) := gen_add_linear d in
+  add_offset (ko * b) (add_linear v (kl * b) base).
 
 Definition view_add_quadratic (d : vdir) (u v : label) (b : Qc) (base : poly) : poly :=
+  let '(kq, ku, kv, ko) := gen_add_quadratic d in
   let addq (k : Qc) (p : poly) := mkPoly (p_off p) (p_lin p) ((u, v, k) :: p_quad p) in
-  match d with
-  | BinOverSpin =>
-      add_offset (b * quarter) (add_linear v (b * quarter) (add_linear u (b * quarter) (addq (b * quarter) base)))
-  | SpinOverBin =>
-      add_offset b (add_linear v (- (two * b)) (add_linear u (- (two * b)) (addq (four * b) base)))
-  end.
+  add_offset (ko * b) (add_linear v (kv * b) (add_linear u (ku * b) (addq (kq * b) base))).
 
 (* the value the view's variable takes when the base variable has value y *)
 Definition view_value (d : vdir) (y : Qc) : Qc :=
